@@ -23,5 +23,6 @@ def main(tier: str) -> int:
         "flat XML: well-formedness and presence of every part's root children only (cannot be re-opened)",
         "set_part is exercised on existing parts only (adding unlisted parts through this low-level call is outside the property)",
     ]
-    run_package_property(run, tier, prefixes=("C03:",))
+    # a pretty / folder save that changes what a reader gets is content lost on the way to disk: C03 as much as C11
+    run_package_property(run, tier, prefixes=("C03:", "C11:pretty-or-packaging-changed-content"))
     return run.finish()
